@@ -618,7 +618,7 @@ MANIFEST = {
 
 def run(ctx):
     ctx.enumerate("history", _fixed_cases(), name="fixed-scenarios", exhaustive=False)
-    ctx.search("history", cases(), quick=1200, thorough=4000)
+    ctx.search("history", cases(), quick=1200, thorough=3000)
 
 
 MUTANTS = [
